@@ -198,11 +198,35 @@ class _DSub(dict):
     pass
 
 
+class _PObj:
+    """printed by a printer registered through a PREDICATE (dispatched from the base printer)"""
+
+    def __init__(self):
+        self.items = []
+
+
+@prettyprinter.register_pretty(predicate=lambda v: type(v) is _PObj)
+def _pretty_pobj(v, ctx):
+    return prettyprinter.pretty_call_alt(ctx, _PObj, args=tuple(v.items))
+
+
+import dataclasses as _dcs
+
+
+@_dcs.dataclass(eq=False)
+class _DCNode:
+    tag: int
+    children: list = _dcs.field(default_factory=list)
+
+
+prettyprinter.install_extras(['dataclasses'])
+
+
 class _LSub(list):
     pass
 
 
-EXOTIC = ['odict', 'ddict', 'deque', 'chainmap', 'ns', 'uobj', 'dsub', 'lsub', 'ntlist', 'exc', 'list', 'dict']
+EXOTIC = ['odict', 'ddict', 'deque', 'chainmap', 'ns', 'uobj', 'dsub', 'lsub', 'ntlist', 'exc', 'list', 'dict', 'pobj', 'dcnode', 'pobj', 'dcnode']
 
 
 def make_exotic(kind, i):
@@ -242,6 +266,13 @@ def make_exotic(kind, i):
     if kind == 'list':
         o = [i]
         return o, o.append
+    if kind == 'pobj':
+        o = _PObj()
+        o.items.append(i)
+        return o, o.items.append
+    if kind == 'dcnode':
+        o = _DCNode(i)
+        return o, o.children.append
     o = {'id': i}
     return o, lambda ch, n=[0]: (o.__setitem__('e%d' % n[0], ch), n.__setitem__(0, n[0] + 1))
 
@@ -268,6 +299,10 @@ def exotic_children(o):
         return [getattr(o, k) for k in sorted(vars(o))]
     if isinstance(o, _UObj):
         return list(o.args) + list(o.kwargs.values())
+    if isinstance(o, _PObj):
+        return list(o.items)
+    if isinstance(o, _DCNode):
+        return [o.tag] + ([o.children] if o.children != [] else [])
     if isinstance(o, BaseException):
         return list(o.args)
     if isinstance(o, (list, tuple)):
@@ -314,14 +349,15 @@ def check_exotic(sh, i):
     root = nodes[0]
     case = {'graph': {'exotic': i, 'seed': sh.seed}, 'width': 79}
     want = []
+    budget_left = [4000]
     try:
-        reference_markers(root, set(), want, [4000])
+        reference_markers(root, set(), want, budget_left)
     except TooBig:
         sh.counters['graphs skipped: expansion larger than 20000 containers'] += 1
         return
     TR.sizes = []
     try:
-        text, ws = traced_print(root, rng.choice([79, 30, 10 ** 6]), 10 ** 6)
+        text, ws = traced_print(root, rng.choice([79, 30, 10 ** 6]), 60 * (len(want) + 4000 - budget_left[0] + 50))
     except M.MonitorAbort as e:
         sh.violation('runaway-recursion', str(e), case)
         return
